@@ -99,6 +99,11 @@ func applySchema(data json.RawMessage, resolved *jsonschema.Resolved, forOutput 
 				return nil, fmt.Errorf("unmarshaling arguments: %w", err)
 			}
 		}
+		if v == nil {
+			// JSON null unmarshals to a nil map; treat it like absent arguments,
+			// so that defaults can be applied (ApplyDefaults panics on a nil map).
+			v = make(map[string]any)
+		}
 		unmarshaled = v
 	} else {
 		if len(data) > 0 {
